@@ -65,7 +65,7 @@ func childrenOf(pid int) []int {
 // exceed before the init is even scheduled: that is a set-up failure, retried here.
 func newSession(probe string, opt sessOpt) (*session, error) {
 	s, err := newSession1(probe, opt)
-	for try := 0; err != nil && try < 4 && strings.Contains(err.Error(), "not responding to ping"); try++ {
+	for try := 0; err != nil && try < 4 && (strings.Contains(err.Error(), "not responding to ping") || strings.Contains(err.Error(), "i/o timeout")); try++ {
 		time.Sleep(time.Duration(200*(try+1)) * time.Millisecond)
 		s, err = newSession1(probe, opt)
 	}
